@@ -4,7 +4,7 @@
 EXTENDS Presentation, Json
 CONSTANTS N, Two, KModel, TModel
 VARIABLES a, p, done
-Scales == {<<1, 1>>, <<2, 1>>, <<1, 4>>, <<3, 1>>, <<1, 1000000>>, <<1000000, 1>>}
+Scales == {<<1, 1>>, <<2, 1>>, <<1, 4>>, <<3, 1>>, <<1, 1000000>>, <<1000000, 1>>, <<1, 1000000000>>}
 All == [holder : {"dense", "sparse"}, printitn : 0..3, seed : {0}, scale : Scales, perm : Perms0(N), start : {"given", "random"},
         dtype : {"float", "int"}]
 NDiff(q) == LET b == [Base(N) EXCEPT !.start = q.start] IN
